@@ -293,3 +293,109 @@ for _qn, _cls in (("pendulum.datetime.DateTime.__sub__", DateTime), ("pendulum.d
 
     for _name, _ns in _minus_cases(_cls):
         REGISTRY[_qn].cases.append(_Case(_qn, _name, _ns, None))
+
+
+# ========================================================================================== range (C19)
+from contracts.date import date_add_spec
+from contracts.dt import add_spec
+
+LINEAR_UNITS = {"weeks": 7 * DUS, "days": DUS, "hours": 3600 * M, "minutes": 60 * M, "seconds": M, "microseconds": 1}
+
+
+def fresh_interval(F, mk, absolute=None):
+    """an Interval as its constructor builds it for endpoints of kind `mk` (the fields range() reads: the
+    endpoints - swapped when absolute and inverted -, the two flags and the length; not the components)"""
+    a, b, cs = mk(F)
+    ab = F.bool("iv_absolute") if absolute is None else absolute
+    shell, rel = fresh_interval_shell(F, a, b, ab)
+    inv = py_gt(a, b)
+    swap = And(ab, inv)
+    if has_time(a):
+        s2, v1 = stdlib.fresh_datetime(F, a.cls, "ivstart", tzinfo=a.tzinfo)
+        e2, v2 = stdlib.fresh_datetime(F, b.cls, "ivend", tzinfo=a.tzinfo)
+    else:
+        s2, v1 = stdlib.fresh_date(F, a.cls, "ivstart")
+        e2, v2 = stdlib.fresh_date(F, b.cls, "ivend")
+    iv = shell.with_fields(_invert=inv, _absolute=ab, _start=s2, _end=e2)
+    pre = [v1, v2, If(swap, _same_fields(s2, b), _same_fields(s2, a)), If(swap, _same_fields(e2, a), _same_fields(e2, b))]
+    return iv, cs + [rel] + pre
+
+
+def _forward(self):
+    return Or(self._absolute, Not(self._invert))
+
+
+def _step(self, unit, k_amount, forward):
+    """position of start.add/subtract(unit = k_amount) for a linear unit on a transition-free clock"""
+    d = sym.mul(k_amount, LINEAR_UNITS[unit])
+    return If(forward, sym.add(pos(self._start), d), sym.sub(pos(self._start), d))
+
+
+def _range_case(kname, mk, unit):
+    is_date = kname == "dates"
+
+    def inv(e, en, a):
+        self = a.self
+        fwd = _forward(self)
+        k = e["__count__"]
+        return [("step_counter", eq(e.i, sym.mul(a.amount, sym.add(k, 1)))),
+                ("current_value_is_start_shifted_k_times", eq(pos(e.start), _step(self, unit, sym.mul(k, a.amount), fwd))),
+                ("current_value_valid", stdlib.valid_dt(e.start) if has_time(e.start) else spec.valid_date(e.start.year, e.start.month, e.start.day)),
+                ("class_and_zone", e.start.cls is self._start.cls and (not has_time(e.start) or zones.same_zone(e.start.tzinfo, self._start.tzinfo))),
+                ("end_unchanged", eq(pos(e.end), pos(self._end))), ("method", e.method == ("add" if fwd is True else e.method))]
+
+    class case:
+        def applies(self, unit, amount=1):
+            return False  # generators are consumed by user code: this contract is verified, not used at call sites
+
+        def args(F):
+            iv, cs = fresh_interval(F, mk)
+            return dict(self=iv, unit=unit, amount=F.int("amount")), cs
+
+        def requires(self, unit, amount):
+            span = sym.add(absv(sym.sub(pos(self._end), pos(self._start))), sym.mul(amount, LINEAR_UNITS[unit]))
+            r = [("positive_step", ge(amount, 1)),
+                 ("one_step_beyond_the_end_is_representable", And(stdlib.td_in_range(sym.mul(span, 2)),
+                                                                   _room(self, span)))]
+            if is_date and unit not in ("weeks", "days"):
+                r.append(("date_units", False))
+            return r
+
+        def yields(value, k, e, a):
+            self = a.self
+            fwd = _forward(self)
+            lo, hi = sym.minv(pos(self._start), pos(self._end)), sym.maxv(pos(self._start), pos(self._end))
+            return [("k_th_value_is_start_shifted_by_k_steps_computed_from_the_start", eq(pos(value), _step(self, unit, sym.mul(k, a.amount), fwd))),
+                    ("contained_in_the_interval", And(ge(pos(value), lo), le(pos(value), hi)))]
+
+        def result(F, **k):
+            raise NotImplementedError
+
+        def ensures(result, self, unit, amount):
+            return []
+
+        # termination: the remaining distance in the direction of travel shrinks by amount*unit per iteration
+        loops = {0: Loop(inv, variant=lambda e, en, a: If(_forward(a.self), sym.sub(pos(a.self._end), pos(e.start)), sym.sub(pos(e.start), pos(a.self._end))))}
+
+    return case
+
+
+def _room(self, span):
+    s = pos(self._start)
+    span = sym.add(span, 2 * DUS)  # (a fixed offset moves the instant by up to a day)
+    if has_time(self._start):
+        return And(stdlib.in_dt_range(sym.sub(s, sym.mul(span, 2))), stdlib.in_dt_range(sym.add(s, sym.mul(span, 2))))
+    return And(ge(sym.fdiv(sym.sub(s, sym.mul(span, 2)), DUS), 1), le(sym.fdiv(sym.add(s, sym.mul(span, 2)), DUS), spec.MAXORD))
+
+
+def _range_cases():
+    kinds = endpoint_kinds()
+    out = {}
+    for kname, unit in (("dates", "days"), ("dates", "weeks"), ("naive", "hours"), ("same_fixed_offset", "days"), ("same_fixed_offset", "seconds")):
+        out[f"{kname}.{unit}"] = _range_case(kname, kinds[kname], unit)
+    return out
+
+
+@contract("pendulum.interval.Interval.range", props=["C19"])
+class interval_range:
+    cases = _range_cases()
